@@ -493,6 +493,7 @@ func decoratorChecks(c *Ctx, m string, feeF *ssa.Function) {
 		}
 	}
 	r.Floor("next() calls in the "+m+" fee decorator", len(nexts), 2)
+	slotSum(c, m, dec)
 	isHelper := func(kind string) func(*ssa.Function) bool {
 		return func(g *ssa.Function) bool {
 			switch kind {
@@ -807,4 +808,66 @@ func collectedFieldUnder(c *Ctx, num *ir.Expr, guardT string) *ir.Expr {
 		return num
 	}
 	return got
+}
+
+// slotSum (A2.decorator-checks|slots-summed): the max-slot check holds the *sum* of a transaction's purchases for one
+// registration against what that registration can still buy. Somewhere on the decorator's route to GetMaxPurchasableSlots
+// the number wanted is an integer addition of a message's Number and what was noted for the same registration before (a
+// value looked up in the per-registration table, or a running total). A check that notes only the last purchase lets two
+// purchases through whose sum exceeds the maximum — the ante chain passes, locked eFUND pays the fee, and the second
+// purchase is refused only at execution.
+func slotSum(c *Ctx, m string, dec *ssa.Function) {
+	w, r := c.W, c.R
+	var fs []*ssa.Function
+	for g := range w.Reachable([]*ssa.Function{dec}) {
+		if ir.ModuleOf(g) != m || w.IsGenerated(g) {
+			continue
+		}
+		for _, b := range g.Blocks {
+			for _, in := range b.Instrs {
+				if call, ok := in.(ssa.CallInstruction); ok && methodNameOf(call) == "GetMaxPurchasableSlots" {
+					fs = append(fs, g)
+				}
+			}
+		}
+	}
+	if len(fs) == 0 {
+		r.Bad("A2.decorator-checks", m+"|slots-summed", w.Pos(dec.Pos()), "the "+m+" decorator asks the keeper for the purchasable maximum", "no call of GetMaxPurchasableSlots on the decorator's route")
+		return
+	}
+	sortFuncs(fs)
+	ok := false
+	for _, g := range fs {
+		for _, b := range g.Blocks {
+			for _, in := range b.Instrs {
+				bo, isBin := in.(*ssa.BinOp)
+				if !isBin || bo.Op != token.ADD {
+					continue
+				}
+				if bt, isBasic := bo.Type().Underlying().(*types.Basic); !isBasic || bt.Info()&types.IsInteger == 0 {
+					continue
+				}
+				isNumber := func(v ssa.Value) bool {
+					return w.ExprOf(v).Any(func(z *ir.Expr) bool { return z.Op == "field" && z.Name == "Number" })
+				}
+				isNoted := func(v ssa.Value) bool {
+					if ph, isPhi := v.(*ssa.Phi); isPhi {
+						for _, e := range ph.Edges {
+							if e == ssa.Value(bo) {
+								return true // a running total
+							}
+						}
+					}
+					e := w.ExprOf(v)
+					return !e.Any(func(z *ir.Expr) bool { return z.Op == "field" && z.Name == "Number" }) && e.Any(func(z *ir.Expr) bool { return z.Op == "lookup" || z.Op == "elem" || z.Op == "captured" })
+				}
+				if isNumber(bo.X) && isNoted(bo.Y) || isNumber(bo.Y) && isNoted(bo.X) {
+					ok = true
+				}
+			}
+		}
+	}
+	r.Require(ok, "A2.decorator-checks", m+"|slots-summed", w.Pos(fs[0].Pos()),
+		"the max-slot check adds up the purchases a transaction makes for one registration (wanted = noted before + msg.Number) before comparing with the purchasable maximum",
+		"no addition of a message's Number to what was noted before in "+fn(fs[0]))
 }
